@@ -18,26 +18,43 @@ def keyIsLevel (t : Tbl) : Key → Bool
   | .lvl i => 0 ≤ i && t.l2v.contains i.toNat
   | .name _ => false
 
-/-- `_map_to_level(d)` for the keys of a mapping or set (order = iteration order) -/
-def mapToLevel (keys : List Key) : M (List Nat) := do
-  let m ← M.get
+/-- `[f(x) for x in l]` where `f` may raise: the first failure wins -/
+def mapME (f : α → Except Err β) : List α → Except Err (List β)
+  | [] => .ok []
+  | a :: l =>
+    match f a with
+    | .error e => .error e
+    | .ok b =>
+      match mapME f l with
+      | .error e => .error e
+      | .ok bs => .ok (b :: bs)
+
+/-- `self.vars[k]` for a key of a user dictionary -/
+def keyVarLevel (t : Tbl) : Key → Except Err Nat
+  | .name s => match t.vars[s]? with
+    | some l => .ok l
+    | none => .error .key
+  | .lvl _ => .error .key
+
+/-- `_map_to_level(d)` as a function of the table (it only reads `vars` / `_level_to_var`) -/
+def mapToLevelE (t : Tbl) (keys : List Key) : Except Err (List Nat) :=
   match keys with
-  | [] => return []
+  | [] => .ok []
   | k0 :: _ =>
     let firstIsVar := match k0 with
-      | .name s => m.tbl.vars.contains s
+      | .name s => t.vars.contains s
       | .lvl _ => false
     if !firstIsVar then
       -- `_assert_keys_are_levels`
-      if keys.all (keyIsLevel m.tbl) then
-        return keys.map fun k => match k with
+      if keys.all (keyIsLevel t) then
+        .ok (keys.map fun k => match k with
           | .lvl i => i.toNat
-          | .name _ => 0
-      else M.throw .value
-    else
-      keys.mapM fun k => match k with
-        | .name s => M.ofOption .key (m.tbl.vars[s]?)
-        | .lvl _ => M.throw .key
+          | .name _ => 0)
+      else .error .value
+    else mapME (keyVarLevel t) keys
+
+/-- `_map_to_level(d)` for the keys of a mapping or set (order = iteration order) -/
+def mapToLevel (keys : List Key) : M (List Nat) := fun m => liftE (mapToLevelE m.tbl keys) m
 
 def dedup [BEq α] : List α → List α
   | [] => []
@@ -49,191 +66,297 @@ def insertSorted (a : Nat) : List Nat → List Nat
 
 def sortNat (l : List Nat) : List Nat := l.foldr insertSorted []
 
+/-! The recursions below are written without `do` (explicit state passing, like `iteF`) so
+that proofs can unfold them; the memo dictionaries are threaded explicitly, with the same keys
+as the Python code. -/
+
 /-! ### cofactor -/
 
 /-- `_cofactor(u, j, ordvar, values, cache)`; `ordvar` is the not-yet-skipped suffix -/
 def cofactorF (values : List (Nat × Bool)) :
     Nat → Int → List Nat → HashMap Int Int → M (Int × HashMap Int Int)
-  | 0, _, _, _ => M.throw .fuel
-  | f+1, u, ordvar, cache => do
-    if u.natAbs = 1 then return (u, cache)
+  | 0, _, _, _ => fun m => (.error .fuel, m)
+  | f+1, u, ordvar, cache => fun m =>
+    if u.natAbs = 1 then (.ok (u, cache), m) else
     match cache[u]? with
-    | some r => return (r, cache)
+    | some r => (.ok (r, cache), m)
     | none =>
-      let m ← M.get
-      let n ← M.ofOption .key (m.tbl.succ[u.natAbs]?)
-      M.assert (n.lo ≠ 0 && n.hi ≠ 0)
-      let ordvar := ordvar.dropWhile (· < n.lvl)
-      if ordvar.isEmpty then return (u, cache)
-      let (r, cache) ← (do
+      match m.tbl.succ[u.natAbs]? with
+      | none => (.error .key, m)
+      | some n =>
+        if n.lo = 0 ∨ n.hi = 0 then (.error .assertion, m) else
+        let ordvar := ordvar.dropWhile (· < n.lvl)
+        if ordvar.isEmpty then (.ok (u, cache), m) else
         match values.lookup n.lvl with
         | some val =>
-          cofactorF values f (if val then n.hi else n.lo) ordvar cache
+          match cofactorF values f (if val then n.hi else n.lo) ordvar cache m with
+          | (.error e, m1) => (.error e, m1)
+          | (.ok (r, cache), m1) =>
+            let r := if u < 0 then -r else r
+            (.ok (r, cache.insert u r), m1)
         | none =>
-          let (p, cache) ← cofactorF values f n.lo ordvar cache
-          let (q, cache) ← cofactorF values f n.hi ordvar cache
-          let r ← findOrAdd n.lvl p q
-          pure (r, cache))
-      let r := if u < 0 then -r else r
-      return (r, cache.insert u r)
+          match cofactorF values f n.lo ordvar cache m with
+          | (.error e, m1) => (.error e, m1)
+          | (.ok (p, cache), m1) =>
+            match cofactorF values f n.hi ordvar cache m1 with
+            | (.error e, m2) => (.error e, m2)
+            | (.ok (q, cache), m2) =>
+              match findOrAdd n.lvl p q m2 with
+              | (.error e, m3) => (.error e, m3)
+              | (.ok r, m3) =>
+                let r := if u < 0 then -r else r
+                (.ok (r, cache.insert u r), m3)
+
+/-- body of `BDD.cofactor(u, values)` (inside the decorator) -/
+def cofactorBody (u : Int) (values : List (Key × Bool)) : M Int := fun m =>
+  match mapToLevelE m.tbl (values.map (·.1)) with
+  | .error e => (.error e, m)
+  | .ok lv =>
+    -- a dict: later duplicates of a key overwrite earlier ones
+    let lvals := (lv.zip (values.map (·.2))).reverse
+    let ordvar := sortNat (dedup lv)
+    if !m.mem u then (.error .value, m) else
+    match cofactorF lvals (m.nvars + 2) u ordvar {} m with
+    | (.error e, m1) => (.error e, m1)
+    | (.ok (r, _), m1) => (.ok r, m1)
 
 /-- `BDD.cofactor(u, values)` -/
-def cofactor (u : Int) (values : List (Key × Bool)) : M Int := tryToReorder do
-  let lv ← mapToLevel (values.map (·.1))
-  -- a dict: later duplicates of a key overwrite earlier ones
-  let lvals := (lv.zip (values.map (·.2))).reverse
-  let ordvar := sortNat (dedup lv)
-  let m ← M.get
-  if !m.mem u then M.throw .value
-  let (r, _) ← cofactorF lvals (m.nvars + 2) u ordvar {}
-  return r
+def cofactor (u : Int) (values : List (Key × Bool)) : M Int :=
+  tryToReorder (cofactorBody u values)
 
 /-! ### quantify -/
 
 def quantifyF (qvars : List Nat) (forall_ : Bool) :
     Nat → Int → List Nat → HashMap Int Int → M (Int × HashMap Int Int)
-  | 0, _, _, _ => M.throw .fuel
-  | f+1, u, ordvar, cache => do
-    if u.natAbs = 1 then return (u, cache)
+  | 0, _, _, _ => fun m => (.error .fuel, m)
+  | f+1, u, ordvar, cache => fun m =>
+    if u.natAbs = 1 then (.ok (u, cache), m) else
     match cache[u]? with
-    | some r => return (r, cache)
+    | some r => (.ok (r, cache), m)
     | none =>
-      let m ← M.get
-      let n ← M.ofOption .key (m.tbl.succ[u.natAbs]?)
-      M.assert (n.lo ≠ 0 && n.hi ≠ 0)
-      let (v, w) := if u < 0 then (-n.lo, -n.hi) else (n.lo, n.hi)
-      let ordvar := ordvar.dropWhile (· < n.lvl)
-      if ordvar.isEmpty then return (u, cache)
-      let (p, cache) ← quantifyF qvars forall_ f v ordvar cache
-      let (q, cache) ← quantifyF qvars forall_ f w ordvar cache
-      let r ← (if qvars.contains n.lvl then
-          (if forall_ then ite p q (-1) else ite p 1 q)
-        else findOrAdd n.lvl p q)
-      return (r, cache.insert u r)
+      match m.tbl.succ[u.natAbs]? with
+      | none => (.error .key, m)
+      | some n =>
+        if n.lo = 0 ∨ n.hi = 0 then (.error .assertion, m) else
+        let v := if u < 0 then -n.lo else n.lo
+        let w := if u < 0 then -n.hi else n.hi
+        let ordvar := ordvar.dropWhile (· < n.lvl)
+        if ordvar.isEmpty then (.ok (u, cache), m) else
+        match quantifyF qvars forall_ f v ordvar cache m with
+        | (.error e, m1) => (.error e, m1)
+        | (.ok (p, cache), m1) =>
+          match quantifyF qvars forall_ f w ordvar cache m1 with
+          | (.error e, m2) => (.error e, m2)
+          | (.ok (q, cache), m2) =>
+            match (if qvars.contains n.lvl then
+                (if forall_ then ite p q (-1) m2 else ite p 1 q m2)
+              else findOrAdd n.lvl p q m2) with
+            | (.error e, m3) => (.error e, m3)
+            | (.ok r, m3) => (.ok (r, cache.insert u r), m3)
+
+/-- body of `BDD.quantify(u, qvars, forall)` (inside the decorator) -/
+def quantifyBody (u : Int) (qvars : List Key) (forall_ : Bool) : M Int := fun m =>
+  match mapToLevelE m.tbl qvars with
+  | .error e => (.error e, m)
+  | .ok lv =>
+    let ordvar := sortNat (dedup lv)
+    match quantifyF lv forall_ (m.nvars + 2) u ordvar {} m with
+    | (.error e, m1) => (.error e, m1)
+    | (.ok (r, _), m1) => (.ok r, m1)
 
 /-- `BDD.quantify(u, qvars, forall)` -/
-def quantify (u : Int) (qvars : List Key) (forall_ : Bool) : M Int := tryToReorder do
-  let lv ← mapToLevel qvars
-  let ordvar := sortNat (dedup lv)
-  let m ← M.get
-  let (r, _) ← quantifyF lv forall_ (m.nvars + 2) u ordvar {}
-  return r
+def quantify (u : Int) (qvars : List Key) (forall_ : Bool) : M Int :=
+  tryToReorder (quantifyBody u qvars forall_)
+
+/-- `BDD.exist(qvars, u)` -/
+def existOp (qvars : List Key) (u : Int) : M Int := quantify u qvars false
+
+/-- `BDD.forall(qvars, u)` -/
+def forallOp (qvars : List Key) (u : Int) : M Int := quantify u qvars true
 
 /-! ### compose -/
 
 def composeF (j : Nat) :
     Nat → Int → Int → HashMap (Int × Int) Int → M (Int × HashMap (Int × Int) Int)
-  | 0, _, _, _ => M.throw .fuel
-  | fu+1, f, g, cache => do
-    if f.natAbs = 1 then return (f, cache)
+  | 0, _, _, _ => fun m => (.error .fuel, m)
+  | fu+1, f, g, cache => fun m =>
+    if f.natAbs = 1 then (.ok (f, cache), m) else
     match cache[(f, g)]? with
-    | some r => return (r, cache)
+    | some r => (.ok (r, cache), m)
     | none =>
-      let m ← M.get
-      let n ← M.ofOption .key (m.tbl.succ[f.natAbs]?)
-      M.assert (n.lo ≠ 0 && n.hi ≠ 0)
-      if j < n.lvl then return (f, cache)
-      let (r, cache) ← (do
+      match m.tbl.succ[f.natAbs]? with
+      | none => (.error .key, m)
+      | some n =>
+        if n.lo = 0 ∨ n.hi = 0 then (.error .assertion, m) else
+        if j < n.lvl then (.ok (f, cache), m) else
         if n.lvl = j then
-          let r ← ite g n.hi n.lo
-          pure ((if f < 0 then -r else r), cache)
+          match ite g n.hi n.lo m with
+          | (.error e, m1) => (.error e, m1)
+          | (.ok r, m1) =>
+            let r := if f < 0 then -r else r
+            (.ok (r, cache.insert (f, g) r), m1)
         else
-          let k ← M.ofOption .key (m.tbl.levelOf? g)
-          let z := min n.lvl k
-          let (f0, f1) ← liftE (topCofactor m.tbl f z)
-          let (g0, g1) ← liftE (topCofactor m.tbl g z)
-          let (p, cache) ← composeF j fu f0 g0 cache
-          let (q, cache) ← composeF j fu f1 g1 cache
-          let r ← findOrAdd z p q
-          pure (r, cache))
-      return (r, cache.insert (f, g) r)
+          match m.tbl.levelOf? g with
+          | none => (.error .key, m)
+          | some k =>
+            let z := min n.lvl k
+            match topCofactor m.tbl f z, topCofactor m.tbl g z with
+            | .error e, _ => (.error e, m)
+            | .ok _, .error e => (.error e, m)
+            | .ok (f0, f1), .ok (g0, g1) =>
+              match composeF j fu f0 g0 cache m with
+              | (.error e, m1) => (.error e, m1)
+              | (.ok (p, cache), m1) =>
+                match composeF j fu f1 g1 cache m1 with
+                | (.error e, m2) => (.error e, m2)
+                | (.ok (q, cache), m2) =>
+                  match findOrAdd z p q m2 with
+                  | (.error e, m3) => (.error e, m3)
+                  | (.ok r, m3) => (.ok (r, cache.insert (f, g) r), m3)
+
+/-- `g = level_sub.get(i)`, or the node of the variable itself when `g is None` -/
+def subOrVar (sub : List (Nat × Int)) (i : Nat) : M Int := fun m =>
+  match sub.lookup i with
+  | some g => (.ok g, m)
+  | none => findOrAdd i (-1) 1 m
 
 def vectorComposeF (sub : List (Nat × Int)) :
     Nat → Int → HashMap Nat Int → M (Int × HashMap Nat Int)
-  | 0, _, _ => M.throw .fuel
-  | fu+1, f, cache => do
-    if f.natAbs = 1 then return (f, cache)
+  | 0, _, _ => fun m => (.error .fuel, m)
+  | fu+1, f, cache => fun m =>
+    if f.natAbs = 1 then (.ok (f, cache), m) else
     match cache[f.natAbs]? with
     | some r =>
-      M.assert (r ≠ 0)
-      return ((if f < 0 then -r else r), cache)
+      if r = 0 then (.error .assertion, m) else
+      (.ok ((if f < 0 then -r else r), cache), m)
     | none =>
-      let m ← M.get
-      let n ← M.ofOption .key (m.tbl.succ[f.natAbs]?)
-      M.assert (n.lo ≠ 0 && n.hi ≠ 0)
-      let (p, cache) ← vectorComposeF sub fu n.lo cache
-      let (q, cache) ← vectorComposeF sub fu n.hi cache
-      let g ← (match sub.lookup n.lvl with
-        | some g => pure g
-        | none => findOrAdd n.lvl (-1) 1)
-      let r ← ite g q p
-      let cache := cache.insert f.natAbs r
-      return ((if f < 0 then -r else r), cache)
+      match m.tbl.succ[f.natAbs]? with
+      | none => (.error .key, m)
+      | some n =>
+        if n.lo = 0 ∨ n.hi = 0 then (.error .assertion, m) else
+        match vectorComposeF sub fu n.lo cache m with
+        | (.error e, m1) => (.error e, m1)
+        | (.ok (p, cache), m1) =>
+          match vectorComposeF sub fu n.hi cache m1 with
+          | (.error e, m2) => (.error e, m2)
+          | (.ok (q, cache), m2) =>
+            match subOrVar sub n.lvl m2 with
+            | (.error e, m3) => (.error e, m3)
+            | (.ok g, m3) =>
+              match ite g q p m3 with
+              | (.error e, m4) => (.error e, m4)
+              | (.ok r, m4) =>
+                (.ok ((if f < 0 then -r else r), cache.insert f.natAbs r), m4)
 
-/-- `BDD.compose(f, var_sub)` -/
-def compose (f : Int) (varSub : List (String × Int)) : M Int := tryToReorder do
-  let m ← M.get
+/-- `self.level_of_var(var)` on a table -/
+def levelOfVarE (t : Tbl) (v : String) : Except Err Nat :=
+  match t.vars[v]? with
+  | some l => .ok l
+  | none => .error .value
+
+/-- one item of `{self.level_of_var(var): g for var, g in var_sub.items()}` -/
+def subLevelE (t : Tbl) (vg : String × Int) : Except Err (Nat × Int) :=
+  match levelOfVarE t vg.1 with
+  | .error e => .error e
+  | .ok j => .ok (j, vg.2)
+
+/-- body of `BDD.compose(f, var_sub)` (inside the decorator) -/
+def composeBody (f : Int) (varSub : List (String × Int)) : M Int := fun m =>
   match varSub with
   | [(v, g)] =>
-    let j ← levelOfVar v
-    let (r, _) ← composeF j (2 * m.nvars + 4) f g {}
-    return r
+    match levelOfVarE m.tbl v with
+    | .error e => (.error e, m)
+    | .ok j =>
+      match composeF j (2 * m.nvars + 4) f g {} m with
+      | (.error e, m1) => (.error e, m1)
+      | (.ok (r, _), m1) => (.ok r, m1)
   | _ =>
-    let sub ← varSub.mapM fun (v, g) => do
-      let j ← levelOfVar v
-      pure (j, g)
-    let (r, _) ← vectorComposeF sub (m.nvars + 2) f {}
-    return r
+    match mapME (subLevelE m.tbl) varSub with
+    | .error e => (.error e, m)
+    | .ok sub =>
+      match vectorComposeF sub (m.nvars + 2) f {} m with
+      | (.error e, m1) => (.error e, m1)
+      | (.ok (r, _), m1) => (.ok r, m1)
+
+/-- `BDD.compose(f, var_sub)` -/
+def compose (f : Int) (varSub : List (String × Int)) : M Int :=
+  tryToReorder (composeBody f varSub)
 
 /-! ### rename / copy -/
 
 /-- `_copy_bdd(u, level_map, old_bdd, bdd, cache)`; `src = none` means `old_bdd is bdd` -/
 def copyBddF (src : Option Tbl) (levelMap : List (Nat × Nat)) :
     Nat → Int → HashMap Nat Int → M (Int × HashMap Nat Int)
-  | 0, _, _ => M.throw .fuel
-  | fu+1, u, cache => do
-    if u.natAbs = 1 then return (u, cache)
+  | 0, _, _ => fun m => (.error .fuel, m)
+  | fu+1, u, cache => fun m =>
+    if u.natAbs = 1 then (.ok (u, cache), m) else
     match cache[u.natAbs]? with
     | some r =>
-      M.assert (0 < r)
-      return ((if u < 0 then -r else r), cache)
+      if ¬ 0 < r then (.error .assertion, m) else
+      (.ok ((if u < 0 then -r else r), cache), m)
     | none =>
-      let m ← M.get
-      let t := src.getD m.tbl
-      let n ← M.ofOption .key (t.succ[u.natAbs]?)
-      M.assert (n.lo ≠ 0 && n.hi ≠ 0)
-      let (p, cache) ← copyBddF src levelMap fu n.lo cache
-      let (q, cache) ← copyBddF src levelMap fu n.hi cache
-      M.assert (0 < p * n.lo)
-      M.assert (0 < q)
-      let jnew ← M.ofOption .key (levelMap.lookup n.lvl)
-      let g ← findOrAdd jnew (-1) 1
-      let r ← ite g q p
-      M.assert (0 < r)
-      let cache := cache.insert u.natAbs r
-      return ((if u < 0 then -r else r), cache)
+      match (src.getD m.tbl).succ[u.natAbs]? with
+      | none => (.error .key, m)
+      | some n =>
+        if n.lo = 0 ∨ n.hi = 0 then (.error .assertion, m) else
+        match copyBddF src levelMap fu n.lo cache m with
+        | (.error e, m1) => (.error e, m1)
+        | (.ok (p, cache), m1) =>
+          match copyBddF src levelMap fu n.hi cache m1 with
+          | (.error e, m2) => (.error e, m2)
+          | (.ok (q, cache), m2) =>
+            if ¬ 0 < p * n.lo then (.error .assertion, m2) else
+            if ¬ 0 < q then (.error .assertion, m2) else
+            match levelMap.lookup n.lvl with
+            | none => (.error .key, m2)
+            | some jnew =>
+              match findOrAdd jnew (-1) 1 m2 with
+              | (.error e, m3) => (.error e, m3)
+              | (.ok g, m3) =>
+                match ite g q p m3 with
+                | (.error e, m4) => (.error e, m4)
+                | (.ok r, m4) =>
+                  if ¬ 0 < r then (.error .assertion, m4) else
+                  (.ok ((if u < 0 then -r else r), cache.insert u.natAbs r), m4)
+
+/-- the level map of `rename`: `{levels[var]: levels[dvars.get(var, var)] for var in bdd.vars}` -/
+def renameMap (t : Tbl) (dvars : List (String × String)) : Except Err (List (Nat × Nat)) :=
+  mapME (fun (vl : String × Nat) =>
+    match t.vars[(dvars.reverse.lookup vl.1).getD vl.1]? with
+    | some l2 => .ok (vl.2, l2)
+    | none => .error .key) t.vars.toList
+
+/-- body of the module-level `rename(u, bdd, dvars)` (inside the decorator of `BDD.rename`) -/
+def renameBody (u : Int) (dvars : List (String × String)) : M Int := fun m =>
+  if !m.mem u then (.error .value, m) else
+  if dvars.isEmpty then (.ok u, m) else
+  match renameMap m.tbl dvars with
+  | .error e => (.error e, m)
+  | .ok lm =>
+    match copyBddF none lm (m.nvars + 2) u {} m with
+    | (.error e, m1) => (.error e, m1)
+    | (.ok (r, _), m1) => (.ok r, m1)
 
 /-- module-level `rename(u, bdd, dvars)` wrapped by `BDD.rename` -/
-def rename (u : Int) (dvars : List (String × String)) : M Int := tryToReorder do
-  let m ← M.get
-  if !m.mem u then M.throw .value
-  if dvars.isEmpty then return u
-  let lm ← m.tbl.vars.toList.mapM fun (var, lvl) => do
-    let tgt := (dvars.reverse.lookup var).getD var
-    let l2 ← M.ofOption .key (m.tbl.vars[tgt]?)
-    pure (lvl, l2)
-  let (r, _) ← copyBddF none lm (m.nvars + 2) u {}
-  return r
+def rename (u : Int) (dvars : List (String × String)) : M Int :=
+  tryToReorder (renameBody u dvars)
 
-/-- `copy_bdd(u, from_bdd, to_bdd)` (different managers), run in the target -/
-def copyBdd (src : Tbl) (u : Int) : M Int := do
-  let m ← M.get
-  let lm := src.vars.toList.filterMap fun (var, l) =>
-    match m.tbl.vars[var]? with
-    | some l2 => some (l, l2)
+/-- the level map of `copy_bdd`: by variable name, for the names declared in both managers -/
+def copyMap (src tgt : Tbl) : List (Nat × Nat) :=
+  src.vars.toList.filterMap fun vl =>
+    match tgt.vars[vl.1]? with
+    | some l2 => some (vl.2, l2)
     | none => none
-  let (r, _) ← copyBddF (some src) lm (src.nvars + 2) u {}
-  return r
+
+/-- body of `_copy_bdd_to(to_bdd, u, from_bdd)` (inside the decorator of the target) -/
+def copyBddBody (src : Tbl) (u : Int) : M Int := fun m =>
+  match copyBddF (some src) (copyMap src m.tbl) (src.nvars + 2) u {} m with
+  | (.error e, m1) => (.error e, m1)
+  | (.ok (r, _), m1) => (.ok r, m1)
+
+/-- `copy_bdd(u, from_bdd, to_bdd)` (different managers), run in the target inside its
+`_try_to_reorder` -/
+def copyBdd (src : Tbl) (u : Int) : M Int := tryToReorder (copyBddBody src u)
 
 /-! ### let -/
 
